@@ -119,12 +119,16 @@ def run_check(mod, tier, update_expected=False, only=None, keep=False, verbose=F
     proof_total = proof_ok = bnd_total = bnd_ok = 0
     samples = []
     backends = []
+    need_fallback = []
     for j in jobs:
         r = results[j.name]
         backends.append({'job': j.name, 'solver': j.solver, 'kind': j.kind, 'seconds': r.get('seconds'),
                          'status': r['status'], 'obligations': len(r['obligations'])})
         if r['status'] != 'done':
-            undecided.append('%s: %s %s' % (j.name, r['status'], r.get('reason', '')[:400]))
+            if r.get('reason') == 'staging failed' and j.fallback is not None:
+                need_fallback.append((j, 'staging mismatch'))
+            else:
+                undecided.append('%s: %s %s' % (j.name, r['status'], r.get('reason', '')[:400]))
             continue
         obs = r['obligations']
         inv = {}
@@ -146,8 +150,15 @@ def run_check(mod, tier, update_expected=False, only=None, keep=False, verbose=F
                 ok_models = getattr(mod, 'ALLOWED_WARNINGS', [])
                 if not any(re.search(a, w) for a in ok_models):
                     undecided.append('%s: tool warning: %s' % (j.name, w))
-        a_fail = [o for o in obs if o['class'] == 'A' and o['status'] != 'SUCCESS']
-        p_fail = [o for o in obs if o['class'] == 'P' and o['status'] != 'SUCCESS']
+        # FAILURE = refuted by the solver.  UNKNOWN/ERROR = CBMC did not decide the obligation
+        # (it reports UNKNOWN for obligations downstream of a refuted one); never a violation.
+        a_fail = [o for o in obs if o['class'] == 'A' and o['status'] == 'FAILURE']
+        p_fail = [o for o in obs if o['class'] == 'P' and o['status'] == 'FAILURE']
+        if not a_fail and not p_fail:
+            und = [o for o in obs if o['class'] != 'reach' and o['status'] != 'SUCCESS']
+            if und:
+                undecided.append('%s: %d obligations not decided by the solver (%s ...: %s)'
+                                 % (j.name, len(und), und[0]['id'], und[0]['status']))
         reach_bad = [o for o in obs if o['class'] == 'reach' and o['status'] == 'SUCCESS']
         nreach = len([o for o in obs if o['class'] == 'reach'])
         if j.expect_reach is not None and nreach < j.expect_reach:
@@ -166,38 +177,48 @@ def run_check(mod, tier, update_expected=False, only=None, keep=False, verbose=F
             if len(samples) < 40:
                 samples.append({'job': j.name, 'obligation': o['id'], 'desc': o['desc'][:140], 'status': o['status'],
                                 'at': o['loc']})
-        if a_fail and not p_fail:
-            undecided.append('%s: proof scaffolding failed (%s); property not decided by this harness'
-                             % (j.name, ', '.join(o['id'] for o in a_fail[:4])))
-        if a_fail and p_fail:
-            # P failures with a broken invariant are not trustworthy as violations unless bounded rerun confirms
-            fb = getattr(mod, 'bounded_fallback', None)
-            confirmed = False
-            if fb:
-                bj = fb(j)
-                if bj is not None:
-                    try:
-                        st2, _ = S.stage(os.path.join(VERIF, bj.harness), bj.defines,
-                                         [os.path.join(VERIF, a) for a in bj.anns], work, bj.ops, bj.incdirs)
-                        r2 = R.run_job(bj, st2, work, log)
-                        if r2['status'] == 'done':
-                            pf2 = [o for o in r2['obligations'] if o['class'] == 'P' and o['status'] != 'SUCCESS']
-                            af2 = [o for o in r2['obligations'] if o['class'] == 'A' and o['status'] != 'SUCCESS']
-                            if pf2:
-                                confirmed = True
-                                results[bj.name] = r2
-                                for o in pf2:
-                                    violations.append((bj, o, r2))
-                            elif not af2:
-                                undecided.append('%s: proof-broken bounded-search-clean' % j.name)
-                    except S.StageError as e:
-                        undecided.append('%s: fallback staging: %s' % (j.name, e))
-            if not confirmed:
-                undecided.append('%s: loop contract and property obligations both fail (%s | %s)'
-                                 % (j.name, ', '.join(o['id'] for o in a_fail[:3]), ', '.join(o['id'] for o in p_fail[:3])))
+        if a_fail:
+            need_fallback.append((j, 'proof scaffolding failed (%s)%s' % (
+                ', '.join(o['id'] for o in a_fail[:4]),
+                '; property obligations also fail: ' + ', '.join(o['id'] for o in p_fail[:3]) if p_fail else '')))
         elif p_fail:
             for o in p_fail:
                 violations.append((j, o, r))
+
+    # ---- bounded fallback: the proof scaffolding does not fit the code any more (loop count
+    # changed, invariant broken).  That is not a violation.  Search for a concrete counterexample
+    # with the same harness, no loop contracts, small structural bound; report only what is found.
+    def run_fb(item):
+        j, why = item
+        if j.fallback is None:
+            return j, why, None, None
+        bj = j.fallback
+        try:
+            st2, _ = S.stage(os.path.join(VERIF, bj.harness), bj.defines,
+                             [os.path.join(VERIF, a) for a in bj.anns], work, bj.ops, bj.incdirs)
+        except S.StageError as e:
+            return j, why, bj, {'status': 'error', 'reason': 'fallback staging: %s' % e, 'obligations': []}
+        return j, why, bj, R.run_job(bj, st2, work, log)
+
+    if need_fallback:
+        with ThreadPoolExecutor(max_workers=nworkers) as ex:
+            for j, why, bj, r2 in ex.map(run_fb, need_fallback):
+                if bj is None:
+                    undecided.append('%s: %s; no bounded fallback' % (j.name, why))
+                    continue
+                results[bj.name] = r2
+                backends.append({'job': bj.name, 'solver': bj.solver, 'kind': 'bounded-fallback',
+                                 'seconds': r2.get('seconds'), 'status': r2['status'],
+                                 'obligations': len(r2['obligations'])})
+                if r2['status'] != 'done':
+                    undecided.append('%s: %s; fallback %s %s' % (j.name, why, r2['status'], r2.get('reason', '')[:200]))
+                    continue
+                pf2 = [o for o in r2['obligations'] if o['class'] == 'P' and o['status'] == 'FAILURE']
+                if pf2:
+                    for o in pf2:
+                        violations.append((bj, o, r2))
+                else:
+                    undecided.append('%s: %s; bounded search (%s) found no counterexample' % (j.name, why, bj.bound))
 
     # ---- violations -> known findings / replay files
     out_lines = []
